@@ -164,6 +164,10 @@ Definition spec_cookies (hs : hlist) : option cookie_map :=
 Definition consumed_name (n : bytes) : bool :=
   eq_ic n n_content_type || eq_ic n n_expect || eq_ic n n_transfer_encoding.
 Definition spec_exposed (hs : hlist) : hlist := filter (fun h => negb (consumed_name (fst h))) hs.
+(* C14, request level: what the handler sees is the sent list minus the consumed fields, in order, pure ASCII
+   (evaluated by the C14 correspondence check on the implementation's own header list) *)
+Definition oracle_c14_req (sent exposed : hlist) : bool :=
+  hlist_beq exposed (spec_exposed sent) && (negb (all_ascii sent) || all_ascii exposed).
 
 (* ---------------------------------------------------------------- the whole request *)
 (* what read_http_request must return for a parsed head: rejection when the framing is invalid or
